@@ -119,6 +119,7 @@ struct wcfg {
         int merge_doomed;      /* forget the bytes of lines that are certainly answered ERROR (state merging) */
         int wo_fill;           /* fill byte for write-only storage at init (C08 pairing) */
         int var_init;          /* initial value pattern selector for variables */
+        int io_trigger;        /* 1: the io read callback may raise an event (then reports 'no byte') when no mutex is configured */
         int stale_usize;       /* shared layout: unsolicited_buf stays NULL but unsolicited_buf_size is left at this value (cat.h: the pointer decides) */
         int alias_group;       /* 1: the command array of group 0 is registered a second time, as a last, disabled group */
         int refusal_probe;     /* 1: whenever a refusal-only cat_service call changed parser state, follow the all-refusing continuation (side exploration) */
@@ -148,6 +149,7 @@ struct calllog {
         int handler_calls, var_calls, locks, unlocks, lock_failed, unlock_failed;
         int nonquiet;     /* a handler/var choice other than index 0 was taken */
         int nested_lock_refused;
+        int io_triggered;      /* the io read callback raised an event during this call (new stimulus from inside the call) */
         int out_n; uint8_t out[64];
         int in_n; uint8_t in[8];
 };
